@@ -57,7 +57,8 @@ pub fn check_with(c: &Case, ctx: &mut Ctx, via_default: bool) -> Result<(), Fail
             ctx.label("reset_in_history");
         }
         crate::tele::step(&mut ind, &c.cfg);
-        let out = ind.next_scalar(x);
+        // mixed use of both paths on one instance (tele.rs): on some steps the value arrives as a one-price bar
+        let out = if crate::tele::scalar_here() { ind.next_bar(&crate::adapter::RawBar::flat(x, 1.0)) } else { ind.next_scalar(x) };
         fp.f(x);
         hist.push(x);
         let t = hist.len();
